@@ -1,0 +1,202 @@
+//go:build verif
+
+package verifapi
+
+import (
+	"errors"
+	"fmt"
+
+	"google.golang.org/grpc/codes"
+	"google.golang.org/grpc/status"
+	"google.golang.org/protobuf/proto"
+
+	fs_db "github.com/glebziz/fs_db"
+	adapterErrors "github.com/glebziz/fs_db/internal/adapter/errors"
+	"github.com/glebziz/fs_db/internal/adapter/iso_level"
+	"github.com/glebziz/fs_db/internal/model"
+	store "github.com/glebziz/fs_db/internal/proto"
+)
+
+// NamedSentinel is one exported sentinel error of package fs_db.
+type NamedSentinel struct {
+	Name string
+	Err  error
+}
+
+// Sentinels lists every sentinel declared in errors.go, in declaration order.
+var Sentinels = []NamedSentinel{
+	{"ErrUnknown", fs_db.ErrUnknown},
+	{"ErrNoFreeSpace", fs_db.ErrNoFreeSpace},
+	{"ErrNotFound", fs_db.ErrNotFound},
+	{"ErrEmptyKey", fs_db.ErrEmptyKey},
+	{"ErrHeaderNotFound", fs_db.ErrHeaderNotFound},
+	{"ErrTxNotFound", fs_db.ErrTxNotFound},
+	{"ErrTxAlreadyExists", fs_db.ErrTxAlreadyExists},
+	{"ErrTxSerialization", fs_db.ErrTxSerialization},
+	{"ErrEmptyDbPath", fs_db.ErrEmptyDbPath},
+	{"ErrEmptyRootDirs", fs_db.ErrEmptyRootDirs},
+}
+
+// Aliases lists the backward-compatibility names with the sentinel each must be identical to.
+var Aliases = []struct {
+	Name   string
+	Alias  error
+	Target error
+}{
+	{"SizeErr", fs_db.SizeErr, fs_db.ErrNoFreeSpace},
+	{"NotFoundErr", fs_db.NotFoundErr, fs_db.ErrNotFound},
+	{"EmptyKeyErr", fs_db.EmptyKeyErr, fs_db.ErrEmptyKey},
+	{"HeaderNotFoundErr", fs_db.HeaderNotFoundErr, fs_db.ErrHeaderNotFound},
+	{"TxNotFoundErr", fs_db.TxNotFoundErr, fs_db.ErrTxNotFound},
+	{"TxAlreadyExistsErr", fs_db.TxAlreadyExistsErr, fs_db.ErrTxAlreadyExists},
+	{"TxSerializationErr", fs_db.TxSerializationErr, fs_db.ErrTxSerialization},
+	{"EmptyDbPathErr", fs_db.EmptyDbPathErr, fs_db.ErrEmptyDbPath},
+	{"EmptyRootDirs", fs_db.EmptyRootDirs, fs_db.ErrEmptyRootDirs},
+}
+
+// SentinelByName returns the sentinel with the given name.
+func SentinelByName(name string) (error, bool) {
+	for _, s := range Sentinels {
+		if s.Name == name {
+			return s.Err, true
+		}
+	}
+
+	return nil, false
+}
+
+// ErrTree describes an error value: Kind 'L' = the sentinel itself, 'O' = a
+// foreign error, 'W' = fmt.Errorf("...%w", kid), 'J' = errors.Join(kids...).
+type ErrTree struct {
+	Kind     byte
+	Sentinel string
+	Kids     []*ErrTree
+}
+
+// BuildErr builds the Go error value described by t.
+func BuildErr(t *ErrTree) (error, error) {
+	switch t.Kind {
+	case 'L':
+		s, ok := SentinelByName(t.Sentinel)
+		if !ok {
+			return nil, fmt.Errorf("unknown sentinel %q", t.Sentinel)
+		}
+
+		return s, nil
+	case 'O':
+		return errors.New("x"), nil
+	case 'W':
+		if len(t.Kids) != 1 {
+			return nil, errors.New("wrap needs one child")
+		}
+
+		k, err := BuildErr(t.Kids[0])
+		if err != nil {
+			return nil, err
+		}
+
+		return fmt.Errorf("w: %w", k), nil
+	case 'J':
+		if len(t.Kids) == 0 {
+			return nil, errors.New("errors.Join() of nothing is nil, not an error value")
+		}
+
+		ks := make([]error, 0, len(t.Kids))
+		for _, c := range t.Kids {
+			k, err := BuildErr(c)
+			if err != nil {
+				return nil, err
+			}
+
+			ks = append(ks, k)
+		}
+
+		return errors.Join(ks...), nil
+	}
+
+	return nil, fmt.Errorf("unknown kind %q", t.Kind)
+}
+
+// Classes returns the names of all sentinels s (declaration order) with errors.Is(err, s).
+func Classes(err error) []string {
+	res := make([]string, 0, 1)
+	for _, s := range Sentinels {
+		if errors.Is(err, s.Err) {
+			res = append(res, s.Name)
+		}
+	}
+
+	return res
+}
+
+// ErrMapResult is what a caller on the client side can observe after err went
+// through the server-side adapter and back through the client-side adapter.
+type ErrMapResult struct {
+	Input    []string // classes of the server-side error itself (what the inline client sees)
+	Code     string   // gRPC status code chosen by adapter/errors.Error
+	Detail   string   // detail code attached by adapter/errors.Error ("none" if no *store.Error detail)
+	Full     []string // classes of ClientError(Error(err)), status carried through its wire form
+	CodeOnly []string // classes of ClientError applied to the same status with the details dropped
+	Direct   []string // classes of ClientError(Error(err)) without the marshal/unmarshal step
+}
+
+// ErrRoundTrip pushes err through the real adapter/errors.Error and ClientError.
+func ErrRoundTrip(err error) (ErrMapResult, error) {
+	var res ErrMapResult
+	res.Input = Classes(err)
+
+	srvErr := adapterErrors.Error(err)
+	st := status.Convert(srvErr)
+	res.Code = st.Code().String()
+	res.Detail = "none"
+	for _, d := range st.Details() {
+		if pe, ok := d.(*store.Error); ok {
+			res.Detail = pe.GetCode().String()
+			break
+		}
+	}
+
+	res.Direct = Classes(adapterErrors.ClientError(srvErr))
+
+	// what the transport does with the status: grpc-status-details-bin carries the marshalled proto
+	raw, mErr := proto.Marshal(st.Proto())
+	if mErr != nil {
+		return res, mErr
+	}
+
+	p := st.Proto() // a fresh *Status message; emptied and refilled from the bytes
+	proto.Reset(p)
+	if uErr := proto.Unmarshal(raw, p); uErr != nil {
+		return res, uErr
+	}
+
+	res.Full = Classes(adapterErrors.ClientError(status.ErrorProto(p)))
+	res.CodeOnly = Classes(adapterErrors.ClientError(status.New(st.Code(), st.Message()).Err()))
+
+	return res, nil
+}
+
+// ClientFromWire applies the real ClientError to a status with the given code
+// and (optionally) a detail with the given numeric detail code.
+func ClientFromWire(code uint32, withDetail bool, detail int32) ([]string, error) {
+	st := status.New(codes.Code(code), "m")
+	if withDetail {
+		var err error
+		st, err = st.WithDetails(&store.Error{Code: store.ErrorCode(detail)})
+		if err != nil {
+			return nil, err
+		}
+	}
+
+	return Classes(adapterErrors.ClientError(st.Err())), nil
+}
+
+// IsoToGrpc is iso_level.ConvertToGrpc on raw numbers.
+func IsoToGrpc(level uint8) int32 {
+	return int32(iso_level.ConvertToGrpc(model.TxIsoLevel(level)))
+}
+
+// IsoFromGrpc is iso_level.Convert on raw numbers.
+func IsoFromGrpc(level int32) uint8 {
+	return uint8(iso_level.Convert(store.TxIsoLevel(level)))
+}
